@@ -38,6 +38,7 @@ class Part:
         self.evaluations = 0      # cases generated / executions run
         self.nontrivial = 0       # distinct non-trivial cases (shards are disjoint, so counts add)
         self.states = 0           # distinct (canonical) states / case keys seen
+        self.fps = set()          # optional: state fingerprints (ints), unioned over shards; counted into states at the end
         self.transitions = 0      # real-code steps executed (calls / scheduling steps / fs operations)
         self.traces = 0           # executions compared against the reference oracle
         self.outcomes = collections.Counter()   # distinct observable outcomes (vacuity indicator)
@@ -46,6 +47,7 @@ class Part:
         self.caps = []            # caps hit (a capped run is never called exhaustive)
         self.extra = collections.Counter()
         self.notes = []
+        self.data = []            # harness-private payload (e.g. sub-tree roots found by a first pass); concatenated
 
     def violation(self, sig, case, detail):
         ent = self.violations.get(sig)
@@ -62,6 +64,7 @@ class Part:
         self.evaluations += other.evaluations
         self.nontrivial += other.nontrivial
         self.states += other.states
+        self.fps |= other.fps
         self.transitions += other.transitions
         self.traces += other.traces
         self.outcomes.update(other.outcomes)
@@ -80,6 +83,7 @@ class Part:
             if c not in self.caps:
                 self.caps.append(c)
         self.extra.update(other.extra)
+        self.data.extend(other.data)
         for n in other.notes:
             if n not in self.notes and len(self.notes) < 20:
                 self.notes.append(n)
@@ -235,7 +239,7 @@ def validate_evidence(path):
 def write_evidence(ctx, wall_s, nviol):
     t = ctx.total
     cov = dict(
-        states=t.states, transitions=t.transitions, traces_validated_against_impl=t.traces,
+        states=t.states + len(t.fps), transitions=t.transitions, traces_validated_against_impl=t.traces,
         samples=t.samples[:Part.MAXSAMPLES] or ['(no sample recorded)'],
         evaluations=t.evaluations, distinct_nontrivial=t.nontrivial,
         rule=ctx.rule, exhaustive=bool(ctx.exhaustive and not t.caps),
